@@ -44,6 +44,10 @@ var knownDeviations = map[string][]dev{
 		{"EvalError.prototype#class", `s:"[object EvalError]"`}, {"RangeError.prototype#class", `s:"[object RangeError]"`},
 		{"ReferenceError.prototype#class", `s:"[object ReferenceError]"`}, {"SyntaxError.prototype#class", `s:"[object SyntaxError]"`},
 		{"TypeError.prototype#class", `s:"[object TypeError]"`}, {"URIError.prototype#class", `s:"[object URIError]"`}},
+	"c14.nativeerror-prototype-own-tostring": forEach([]string{"owner:EvalError.prototype", "owner:RangeError.prototype", "owner:ReferenceError.prototype",
+		"owner:SyntaxError.prototype", "owner:TypeError.prototype", "owner:URIError.prototype"}, "#extra", `s:"toString"`),
+	"c14.error-instance-own-name": {{"inst:error-new#ownNames", `s:"message,name"`}, {"inst:error-call#ownNames", `s:"message,name"`}, {"inst:error-no-message#ownNames", `s:"name"`}},
+	"c14.togmtstring-distinct":    {{"inst:same-function:toGMTString=toUTCString#ownNames", `s:"distinct"`}},
 	"c14.regexp-prototype-not-regexp":    cat(forEach(rePrototypeProps, "#own", "b:false"), forEach(rePrototypeProps, "#behav.own", "b:false")),
 	"c14.date-prototype-time-value":      {{"Date.prototype#also0", "n:0"}},
 	"c14.accessor-descriptor-panic":      forEach(scriptFns, "#descFail", `s:"caller:TypeError"`),
